@@ -612,7 +612,7 @@ impl Property for C08 {
         }
     }
     fn rule(&self) -> &'static str {
-        "one case = project with shared dependencies + a priming invocation of every root + a second invocation with a request list containing duplicates, both spellings and dependency+dependent pairs, each under its own seeded schedule; per invocation and target the oracle counts script starts and skips (exactly one inside the closure on success, at most one always, zero outside) and compares the bytes and mtimes of outsiders' state files and outputs before/after. distinct_nontrivial = distinct order hashes among runs whose closure contains a target with two or more requesters"
+        "one case = project with shared dependencies + a priming invocation of every root + a second invocation with a request list containing duplicates, both spellings and dependency+dependent pairs, each under its own seeded schedule; per invocation and target the oracle counts script starts and skips (exactly one inside the closure on success, at most one always, zero outside) and compares the bytes and mtimes of outsiders' state files and outputs before/after. A quarter of the primed cases tear the record of one target before the second invocation; multi-project cases are built first and then partly cleaned (`--clean T`), with one-letter extension filters on shared output directories and links from one target's filtered output directory into another target's. distinct_nontrivial = distinct order hashes among runs whose closure contains a target with two or more requesters"
     }
     fn generate(&self, rng: &mut Rng, _case: u64) -> Scenario {
         if rng.chance(30) {
@@ -999,7 +999,7 @@ impl Property for C17 {
         }
     }
     fn rule(&self) -> &'static str {
-        "one case = generated project in which an antichain of 2..6 mutually independent build targets (none reachable from another) carries rendezvous-gated scripts: a member's exit event is enabled only once every member has started; unrelated never-ending builds and services run alongside. The run can complete iff all members overlap; a stall with an unstarted member whose dependencies are all ready is the violation. Three cases in ten run with --watch, members watching several directories that are written to while targets are still being launched. distinct_nontrivial = distinct order hashes among runs where at least two members were in progress together"
+        "one case = generated project in which an antichain of 2..6 mutually independent build targets (none reachable from another) carries rendezvous-gated scripts: a member's exit event is enabled only once every member has started; unrelated never-ending builds and services run alongside. Every seventh case a member consumes `lib::<name>.output` beside a local namesake of that target. The run can complete iff all members overlap; a stall with an unstarted member whose dependencies are all ready is the violation. Three cases in ten run with --watch, members watching several directories that are written to while targets are still being launched. distinct_nontrivial = distinct order hashes among runs where at least two members were in progress together"
     }
     fn generate(&self, rng: &mut Rng, case_no: u64) -> Scenario {
         let mut sc = gen::gen_graph(rng, &GraphOpts { max_n: 9, ..Default::default() });
@@ -1220,7 +1220,7 @@ impl Property for C20 {
         }
     }
     fn rule(&self) -> &'static str {
-        "one case = metamorphic pair on two copies of one generated tree containing aggregates (nested, empty, over builds, services or both): side 0 requests an aggregate, side 1 requests its dependencies instead (an empty aggregate: nothing else), each side under its own seeded schedule, the signal only at idle. Oracle: same multiset of started scripts and same skipped set, same exit class, same keep-alive. distinct_nontrivial = distinct pairs of order hashes among pairs whose aggregate has at least one dependency"
+        "one case = metamorphic pair on two copies of one generated tree containing aggregates (nested, empty, over builds, services or both): side 0 requests an aggregate, side 1 requests its dependencies instead (an empty aggregate: nothing else), each side under its own seeded schedule, the signal only at idle. Oracle: same multiset of started scripts and same skipped set, same exit class (a configuration refused before anything starts is an outcome too), same keep-alive. Every 50th pair is an aggregate over 33-60 dependencies; a tenth of the others fan out over an imported project's target with the aggregate's own bare name. distinct_nontrivial = distinct pairs of order hashes among pairs whose aggregate has at least one dependency"
     }
     fn generate(&self, rng: &mut Rng, case_no: u64) -> Scenario {
         // every 50th pair: an aggregate over more dependencies than half the message queue holds,
